@@ -281,6 +281,19 @@ class SysEngine(MempoolEngine):
                     self.bump('reorg_skipped_inadmissible')
         elif kind == 'sleep':
             await asyncio.sleep(op[1])
+        elif kind == 'drop_clients':
+            # every client disconnects (also the querying one): for a while nobody is connected to the server
+            for cl in self.clients:
+                if not cl.tr.closed:
+                    await cl.close()
+            self.bump('step:all_clients_disconnected')
+        elif kind == 'new_clients':
+            for _ in range(op[1]):
+                ci = self.new_client()
+                await self.clients[ci].call('server.version', [f'r{ci}', '1.4.2'])
+            self.querier = self.new_client()
+            await self.clients[self.querier].call('server.version', ['q2', '1.4.2'])
+            self.bump('step:clients_reconnected')
 
     async def query(self, qk, ci, orc=None, at=None):
         '''A cache-populating / proof request chosen against the daemon's current chain.  at: 'big' aims at the most recent
@@ -812,6 +825,25 @@ def gen_subscribe_race_script(rng, nclients, nscripts, rounds=None):
         if nclients > 1 and rng.random() < 0.3:
             script.append(('sub', 1 - ci, si))
         script += [('sleep', rng.choice((0, 0.05))), ('w', rng.choice(('mine_all', 'mine_all', 'mine_some', 'mine2'))), ('sleep', 25)]
+    return script
+
+
+def gen_nobody_connected_script(rng, nclients, nscripts):
+    '''Histories are queried (and cached), every client disconnects, the chain changes while nobody is connected, clients come back.'''
+    script = []
+    for ci in range(nclients):
+        script.append(('hsub', ci))
+        script.append(('sub', ci, rng.randrange(nscripts)))
+    for _ in range(rng.randrange(1, 3)):
+        script += [('w', 'add'), ('w', 'mine_all'), ('sleep', 12)]
+        script += [('q', 'get_history') for _q in range(2 * nscripts)] + [('q', 'id_from_pos'), ('q', 'id_from_pos_merkle'), ('sleep', 2)]
+        script += [('drop_clients',), ('sleep', rng.choice((0, 1, 6)))]
+        script += [('w', 'add'), ('w', rng.choice(('mine_all', 'mine_all', 'reorg', 'mine2'))), ('sleep', rng.choice((12, 20)))]
+        if rng.random() < 0.4:
+            script += [('rpc_reorg', rng.randrange(1, 3)), ('sleep', 20)]
+        script += [('new_clients', nclients), ('sleep', 6)]
+        for ci in range(nclients):
+            script.append(('q', 'get_history'))
     return script
 
 
